@@ -37,7 +37,7 @@ use super::Prop;
 use crate::common::{block_on_system, kv, unhex, CaseResult, Ctx, Rng, Tier};
 
 const RULE: &str = "cases = (extractor ∈ {Bytes, String, Json<String>, Form<{a}>, web::Payload::to_bytes_limited, \
-body::to_bytes_limited on a scripted MessageBody, MultipartForm<A|B|C>}) × limit × declared length (absent / true / \
+body::to_bytes_limited on a scripted MessageBody, MultipartForm<A|B|C>, multipart Field::bytes}) × limit × declared length (absent / true / \
 lying small / lying large / unparsable) × content coding (identity, gzip, deflate, br, zstd) × plain body × a script \
 cutting the wire image into chunks (empty chunks, Pending, stream error). Streams: all compositions of bodies ≤ 5 \
 bytes for limits 0..4; lengths limit-1/limit/limit+1/4·limit for limits up to 64 KiB with whole / 1-byte / random \
@@ -640,15 +640,20 @@ fn mp_fields(s: &str) -> Vec<(String, usize)> {
 }
 
 fn mp_body(fields: &[(String, usize)]) -> Vec<u8> {
+    let data: Vec<(String, Vec<u8>)> = fields.iter().map(|(n, l)| (n.clone(), letters(*l))).collect();
+    mp_body_data(&data)
+}
+
+fn mp_body_data(fields: &[(String, Vec<u8>)]) -> Vec<u8> {
     let mut v = Vec::new();
-    for (i, (name, len)) in fields.iter().enumerate() {
+    for (i, (name, data)) in fields.iter().enumerate() {
         v.extend_from_slice(format!("--{}\r\n", BOUNDARY).as_bytes());
         if name == "t" {
             v.extend_from_slice(format!("Content-Disposition: form-data; name=\"{}\"; filename=\"f{}.txt\"\r\n\r\n", name, i).as_bytes());
         } else {
             v.extend_from_slice(format!("Content-Disposition: form-data; name=\"{}\"\r\n\r\n", name).as_bytes());
         }
-        v.extend(letters(*len));
+        v.extend_from_slice(data);
         v.extend_from_slice(b"\r\n");
     }
     v.extend_from_slice(format!("--{}--\r\n", BOUNDARY).as_bytes());
@@ -812,9 +817,107 @@ fn run_mp(case: &str) -> CaseResult {
     r.tag("ex:mp").tag(&format!("form:{}", form)).tag(&format!("res:{}", res.split(':').next().unwrap_or("?")))
 }
 
+// ------------------------------------------------------------------------------------------
+// Field::bytes(limit) on the first of two fields of a raw `Multipart` stream
+
+fn fb_wire(plain: &[u8]) -> Vec<u8> {
+    mp_body_data(&[("a".to_owned(), plain.to_vec()), ("z".to_owned(), b"xyz".to_vec())])
+}
+
+async fn run_fb_once(limit: usize, evs: Vec<Ev>) -> (String, Option<Vec<u8>>, u8) {
+    use futures_util::StreamExt as _;
+    let mut headers = actix_http::header::HeaderMap::new();
+    headers.insert(
+        actix_http::header::CONTENT_TYPE,
+        actix_http::header::HeaderValue::from_str(&format!("multipart/form-data; boundary={}", BOUNDARY)).unwrap(),
+    );
+    let cnt = Rc::new(Counters::default());
+    let mut mp = actix_multipart::Multipart::new(&headers, ScriptStream::new(evs, cnt));
+    let mut field = match mp.next().await {
+        Some(Ok(f)) => f,
+        Some(Err(_)) => return ("stream-err".into(), None, 0),
+        None => return ("other:no-field".into(), None, 0),
+    };
+    let (res, data) = match field.bytes(limit).await {
+        Ok(Ok(b)) => (ok_tok(&b), Some(b.to_vec())),
+        Ok(Err(_)) => return ("stream-err".into(), None, 0),
+        Err(_) => ("limit-exceeded".to_owned(), None),
+    };
+    drop(field);
+    // the rest of the request must still be readable
+    let next = match mp.next().await {
+        Some(Ok(mut f2)) => match f2.bytes(16).await {
+            Ok(Ok(b)) if &b[..] == b"xyz" => 1,
+            _ => 0,
+        },
+        _ => 0,
+    };
+    (res, data, next)
+}
+
+fn run_fb(case: &str) -> CaseResult {
+    let limit: usize = kv(case, "lim").and_then(|v| v.parse().ok()).unwrap_or(0);
+    let plain = body_of_spec(kv(case, "body").unwrap_or("x:-"));
+    let wire = fb_wire(&plain);
+    let mut toks = parse_cuts(kv(case, "cuts").unwrap_or(""));
+    let has_err = toks.contains(&Tok::Err);
+    let sent: usize = toks.iter().map(|t| if let Tok::Chunk(n) = t { *n } else { 0 }).sum();
+    if sent < wire.len() && !has_err {
+        toks.push(Tok::Chunk(wire.len() - sent));
+    }
+    let evs = script(&wire, &toks);
+    let ((res, data, next), (res1, _, _)) = block_on_system(async {
+        let a = run_fb_once(limit, evs.clone()).await;
+        let mut one = vec![Ev::Chunk(Bytes::copy_from_slice(&wire))];
+        if has_err {
+            // same bytes before the error, as one chunk
+            let mut acc = Vec::new();
+            for e in &evs {
+                match e {
+                    Ev::Chunk(b) => acc.extend_from_slice(b),
+                    Ev::Err => break,
+                    Ev::Pending => {}
+                }
+            }
+            one = vec![Ev::Chunk(Bytes::from(acc)), Ev::Err];
+        }
+        let b = run_fb_once(limit, one).await;
+        (a, b)
+    });
+    let mut r = CaseResult::ok(format!("{} next={}", res, next));
+    r.nontrivial = !res.starts_with("other:");
+    if let Some(d) = &data {
+        if d.len() > limit || plain.len() > limit {
+            r = r.fail("accepted-over-limit", format!("field of {} bytes returned with limit {}", plain.len(), limit));
+        } else if d != &plain {
+            r = r.fail("wrong-body", format!("returned {} bytes, field has {}", d.len(), plain.len()));
+        }
+    }
+    if !has_err {
+        if plain.len() > limit && res != "limit-exceeded" {
+            r = r.fail("over-limit-not-overflow", format!("{} bytes, limit {}: {}", plain.len(), limit, res));
+        }
+        if plain.len() <= limit && data.is_none() {
+            r = r.fail("within-limit-overflow", format!("{} bytes, limit {}: {}", plain.len(), limit, res));
+        }
+        if next != 1 {
+            r = r.fail("fb-next-field-lost", format!("after {} the following field could not be read", res));
+        }
+    }
+    if res != res1 {
+        r = r.fail("chunking-dependent", format!("scripted chunking: {} / one chunk: {}", res, res1));
+    }
+    let mut r = r.tag("ex:fb").tag(&format!("res:{}", res.split(':').next().unwrap_or("?")));
+    if has_err {
+        r = r.tag("stream-error-injected");
+    }
+    r
+}
+
 fn run(case: &str) -> CaseResult {
     match kv(case, "ex") {
         Some("mp") => run_mp(case),
+        Some("fb") => run_fb(case),
         Some(ex) => run_stream(case, ex),
         None => CaseResult::ok("bad-case".into()),
     }
@@ -1056,6 +1159,40 @@ fn gen(ctx: &Ctx) -> Vec<String> {
             _ => "none".into(),
         };
         cases.push(stream_case(ex, &lim.to_string(), &cl, enc, &body, &toks));
+    }
+
+    // (G) Field::bytes(limit)
+    for i in 0..ctx.budget(600) {
+        let lim = *rng.pick(&[0usize, 1, 2, 5, 16, 100, 1000, 5000, 70000]);
+        let n = match rng.below(6) {
+            0 => lim.saturating_sub(1),
+            1 => lim,
+            2 => lim + 1,
+            3 => 4 * lim,
+            _ => rng.below(2 * lim + 3),
+        };
+        let body = if n <= 24 { format!("x:{}", hexs(&letters(n))) } else { format!("r:{}:{}", 97 + rng.below(26), n) };
+        let w = fb_wire(&body_of_spec(&body)).len();
+        let mut toks = if i % 4 == 0 { vec![Tok::Chunk(w)] } else { random_cuts(&mut rng, w, 9, true) };
+        if rng.chance(1, 8) {
+            // an error before the end of the first field: cut the script inside the field
+            let keep = rng.below(60 + n);
+            let mut acc = 0usize;
+            let mut t2 = Vec::new();
+            for t in &toks {
+                if let Tok::Chunk(k) = t {
+                    if acc + k > keep {
+                        t2.push(Tok::Chunk(keep - acc));
+                        break;
+                    }
+                    acc += k;
+                }
+                t2.push(t.clone());
+            }
+            t2.push(Tok::Err);
+            toks = t2;
+        }
+        cases.push(format!("ex=fb lim={} body={} cuts={}", lim, body, cuts_str(&toks)));
     }
 
     // (F) multipart forms
